@@ -51,6 +51,8 @@ def gen_case(rng, quick):
         else:
             case["init"] = "random"
     ninit = len(case["init"]) if isinstance(case["init"], list) else 1
+    # numpy-style negative initial indices (-1 ... -n) address the same items; the model gets n+i
+    case["init"] = F.negate_some(rng, case["init"], ncand)
     case["nts"] = rng.randint(ninit, ncand)
     # history: a warm-started continuation of the same object on the same data (fit(warm_start=True)
     # with a larger n_to_select): C02_warm_chain / C02_pcov_warm_chain
@@ -88,11 +90,20 @@ def run_impl(case):
     how = case.get("present", "float64")
     out, sel = F.run_chain_present(case["kind"], case["axis"], sc(case["X"]), sc(case["y"]), case["init"], stages, how,
                                    extra=extra, scale=scale * 2.0 ** (-2 * sp), prefit=pre, data_scale=2.0 ** (-sp))
+    ncand = len(cands(case))
+    for st in out:
+        if "obs" in st:
+            # selected_idx_ / get_support(indices=True) keep a negative initial index as given: the raw
+            # values are checked as found (F.raw_index_check), the model is compared on item numbers
+            o = st["obs"]
+            st["raw"] = dict(sel=list(o["sel"]), sorted=list(o["sorted"]), ordered=list(o.get("ordered", o["sel"])))
+            o["sel"] = F.norm_list(o["sel"], ncand)
+            o["sorted"] = sorted(o["sel"])
     rec = out[0]
     if case["init"] == "random" and "error" not in rec:
         out2, _ = F.run_chain_present(case["kind"], case["axis"], sc(case["X"]), sc(case["y"]), case["init"], stages[:1],
                                       how, extra=extra, scale=scale * 2.0 ** (-2 * sp), data_scale=2.0 ** (-sp))
-        rec["sel_again"] = out2[0]["obs"]["sel"] if "obs" in out2[0] else ["raised"]
+        rec["sel_again"] = F.norm_list(out2[0]["obs"]["sel"], ncand) if "obs" in out2[0] else ["raised"]
     if len(out) > 1:
         rec["warm"] = out[1]
     elif case.get("nts2") and "error" not in rec:
@@ -111,9 +122,9 @@ def case_coq(case, rec):
     if init == "random":
         inits = [o["sel"][0]]
     elif isinstance(init, list):
-        inits = init
+        inits = F.norm_list(init, len(cs))
     else:
-        inits = [init]
+        inits = [F.norm_idx(init, len(cs))]
     y = "None" if case["y"] is None or case["axis"] == 1 else "(Some %s)" % C.zmat(case["y"])
     stages = "[(NoThr, %d%%nat, %s)" % (case["nts"], S.obs_coq(o, rec["stopped"]))
     if case.get("nts2"):
@@ -163,11 +174,11 @@ def oracle_stage(case, rec):
     sel = o["sel"]
     n = len(D)
     init = case["init"]
-    inits = [sel[0]] if init == "random" else (init if isinstance(init, list) else [init])
+    inits = [sel[0]] if init == "random" else F.norm_list(init if isinstance(init, list) else [init], n)
     if init == "random" and rec.get("sel_again") is not None and rec["sel_again"] != sel:
         return "initialize='random' is not reproducible: %s, then %s on a fresh object" % (sel, rec["sel_again"])
     if sel[:len(inits)] != list(inits):
-        return "initial selections %s are not the requested %s" % (sel[:len(inits)], inits)
+        return "initial selections are items %s, the requested initialize=%s are items %s" % (sel[:len(inits)], init, inits)
     if len(sel) != case["nts"]:
         return "selected %d items, requested %d" % (len(sel), case["nts"])
     for t in range(len(inits), len(sel)):
@@ -215,7 +226,7 @@ def gen_float_case(rng, quick):
     y = [[rng.gauss(0, 1) for _ in range(py)] for _ in range(n)]
     ncand = n if axis == 0 else d
     return dict(X=X, y=y, axis=axis, mixing=rng.choice([0.0, 0.1, 0.5, 0.9, rng.random() * 0.99]),
-                init=rng.randrange(ncand), nts=rng.randint(1, ncand), family=fam)
+                init=rng.randrange(ncand) - (ncand if rng.random() < 0.3 else 0), nts=rng.randint(1, ncand), family=fam)
 
 
 def run_float_impl(case):
@@ -223,14 +234,14 @@ def run_float_impl(case):
                           n_to_select=case["nts"])
     sel.fit(np.array(case["X"], float), np.array(case["y"], float))
     return dict(D=[[float(v) for v in r] for r in np.asarray(sel.pcovr_distance_)],
-                sel=[int(i) for i in sel.selected_idx_],
+                sel=F.norm_list(sel.selected_idx_, len(sel.pcovr_distance_)), sel_raw=[int(i) for i in sel.selected_idx_],
                 haus=[float(v) for v in sel.get_distance()],
                 seld=[float(v) for v in sel.get_select_distance()])
 
 
 def float_case_coq(case, r):
     return "fcase_ok %s %s %d%%nat %d%%nat %s %s %s" % (
-        C.fmat(r["D"]), "true" if case["axis"] == 1 else "false", case["init"], case["nts"],
+        C.fmat(r["D"]), "true" if case["axis"] == 1 else "false", F.norm_idx(case["init"], len(r["D"])), case["nts"],
         C.natlist(r["sel"]), C.flist(r["haus"]), C.flist(r["seld"]))
 
 
@@ -239,7 +250,7 @@ def float_oracle(case, r):
     D = np.array(r["D"])
     n = len(D)
     sel = r["sel"]
-    if len(set(sel)) != len(sel) or len(sel) != case["nts"] or sel[0] != case["init"]:
+    if len(set(sel)) != len(sel) or len(sel) != case["nts"] or sel[0] != F.norm_idx(case["init"], n):
         return "selection %s malformed" % sel
     d2 = np.add.outer(np.diag(D), np.diag(D)) - 2 * (D if case["axis"] == 0 else D.T)
     scale = max(1e-300, float(np.max(np.abs(d2))))
@@ -274,6 +285,19 @@ def draw_check(ctx, stats, ncand, random_state, sel0, rep):
         if stats["random_draws_wrong"] <= 3:
             C.report_violation(ctx, "correspondence broken (model of _init_greedy_search): " + msg,
                                dict(rep, correspondence="initialize='random' = check_random_state(random_state).randint(X.shape[axis])"),
+                               found_input=False)
+
+
+def raw_check(ctx, stats, init, sel_raw, sorted_raw, rep):
+    """negative initial indices: the stored values are compared as found (F.raw_index_check)."""
+    if F.has_negative(init):
+        stats["negative_init_cases"] = stats.get("negative_init_cases", 0) + 1
+    msg = F.raw_index_check(init, sel_raw, sorted_raw)
+    if msg:
+        stats["raw_index_mismatch"] = stats.get("raw_index_mismatch", 0) + 1
+        if stats["raw_index_mismatch"] <= 3:
+            C.report_violation(ctx, "correspondence broken (bookkeeping of initial indices): " + msg,
+                               dict(rep, correspondence="selected_idx_ keeps initialize as given; model works on item n+i"),
                                found_input=False)
 
 
@@ -326,6 +350,7 @@ def dist_family(ctx, stats, dcases, dress, dsh, douts):
                 st["hypothesis_residual_max"][k] = max(st["hypothesis_residual_max"][k], x)
         if c["init"] == "random":
             draw_check(ctx, stats, m if c["axis"] == 1 else n, c.get("random_state", 0), r["sel"][0], rep)
+        raw_check(ctx, stats, c["init"], r["sel_raw"], None, rep)
         msg = F.dist_oracle(c, r)          # the brute-force oracle runs on EVERY case of this family
         if msg and not code:
             st["oracle_only"] = st.get("oracle_only", 0) + 1
@@ -365,6 +390,8 @@ def fps_float_family(ctx, stats):
         if c["init"] == "random" and "error" not in r:
             draw_check(ctx, stats, len(c["X"]) if c["axis"] == 0 else len(c["X"][0]), 0, r["sel"][0],
                        dict(case=c, observed=r, kind="fpsfloat"))
+        if "error" not in r:
+            raw_check(ctx, stats, c["init"], r["sel_raw"], None, dict(case=c, observed=r, kind="fpsfloat"))
         msg = F.fpsfloat_oracle(c, r)
         if msg:
             st["failures"] += 1
@@ -435,6 +462,8 @@ def run(ctx):
                       "Eval vm_compute in (failing verdicts).\n" % body)
     stats["float_replay_cases"] = len(fcases)
     stats["float_replay_axis1"] = sum(c["axis"] == 1 for c in fcases)
+    for c, r in zip(fcases, fress):
+        raw_check(ctx, stats, c["init"], r["sel_raw"], None, dict(case=c, observed=r, kind="float_replay"))
     # distance-matrix family: pcovr_distance_ against cov_prog / kern_prog, histories, loop replay
     ndist = 700 if ctx.quick else 2500
     dcases = [F.gen_dist_case(ctx.rng, ctx.quick, shape=F.SHAPES[i % 3] if i < 30 else None) for i in range(ndist)]
@@ -479,6 +508,14 @@ def run(ctx):
     for i, r in enumerate(recs):
         if "error" in r or "error" in (r.get("warm") or {}):
             mismatched.append(i)
+        else:
+            for stg in [r] + ([r["warm"]] if r.get("warm") else []):
+                raw_check(ctx, stats, cases[i]["init"], stg["raw"]["sel"], stg["raw"]["sorted"],
+                          dict(case=cases[i], observed=r))
+                if stg["raw"]["ordered"] != stg["raw"]["sel"]:
+                    mismatched.append(i)
+        if "error" in r or "error" in (r.get("warm") or {}):
+            pass
         elif cases[i]["init"] == "random":
             if r.get("sel_again") != r["obs"]["sel"]:
                 mismatched.append(i)
